@@ -207,11 +207,16 @@ class PatchLinkage:
         patch_ids = list(ref_cat.keys())
         centers = ref_cat.get_centers()
         radii = ref_cat.get_radii()
+        # patches of the other catalogs may reach further out from these centers
+        for cat in other_cats:
+            extent = centers.distance(cat.get_centers()) + cat.get_radii()
+            radii = AngularDistances(np.maximum(radii.data, extent.data))
 
         patch_links = dict()
         for patch_id, patch_center, patch_radius in zip(patch_ids, centers, radii):
             distances = centers.distance(patch_center)
-            linked = distances < (radii + patch_radius + max_scale_angle)
+            max_distances = radii + patch_radius + max_scale_angle
+            linked = distances.data <= max_distances.data
             patch_links[patch_id] = set(compress(patch_ids, linked))
 
         return cls(config, patch_links)
